@@ -2105,7 +2105,20 @@ func (db *DB) CommitJournal(ctx context.Context, mode JournalMode) (err error) {
 		TraceLog.Printf("[CommitJournalPage(%s)]: pgno=%d chksum=%s %s", db.name, pgno, pageChksum, errorKeyValue(err))
 	}
 
-	// Remove all checksums after last page.
+	// Remove all checksums after last page. The transaction can still fail
+	// below (e.g. the primary refuses a forwarded commit) while the pages are
+	// still in the file, so remember the checksums and put them back in that case.
+	removedChksums := make(map[uint32]ltx.Checksum)
+	ltxRenamed := false
+	defer func() {
+		if err != nil && !ltxRenamed {
+			db.chksums.mu.Lock()
+			defer db.chksums.mu.Unlock()
+			for pgno, chksum := range removedChksums {
+				db.setDatabasePageChecksum(pgno, chksum)
+			}
+		}
+	}()
 	func() {
 		db.chksums.mu.Lock()
 		defer db.chksums.mu.Unlock()
@@ -2120,6 +2133,9 @@ func (db *DB) CommitJournal(ctx context.Context, mode JournalMode) (err error) {
 			}
 
 			pageChksum, _ := db.pageChecksum(pgno, db.PageN(), nil)
+			if prev := db.databasePageChecksum(pgno); prev != 0 {
+				removedChksums[pgno] = prev
+			}
 			db.setDatabasePageChecksum(pgno, 0)
 			TraceLog.Printf("[CommitJournalRemovePage(%s)]: pgno=%d chksum=%s %s", db.name, pgno, pageChksum, errorKeyValue(err))
 		}
@@ -2161,7 +2177,9 @@ func (db *DB) CommitJournal(ctx context.Context, mode JournalMode) (err error) {
 	// Atomically rename the file
 	if err := db.os.Rename("COMMITJOURNAL:LTX", tmpPath, ltxPath); err != nil {
 		return fmt.Errorf("rename ltx file: %w", err)
-	} else if err := internal.Sync(filepath.Dir(ltxPath)); err != nil {
+	}
+	ltxRenamed = true
+	if err := internal.Sync(filepath.Dir(ltxPath)); err != nil {
 		return fmt.Errorf("sync ltx dir: %w", err)
 	}
 
